@@ -159,9 +159,9 @@ func PlanFor(prop, tier string) (*Plan, error) {
 		p.Rule = "the node binary is built from the working tree with default settings; (1) it must start (--help); (2) in-process, every command option of the module's AutoCLI configuration is resolved against the registered protobuf descriptors exactly as AutoCLI does (fields.ByName): RPC exists, every positional binding names a field of the request, Use placeholders match the bound fields in order, by-id queries bind every key part, every RPC of both services is reachable or a documented exemption; (3) the whole `query fundraising` / `tx fundraising` command tree of the binary is walked breadth first with --help on every node; (4) every custom-bound tx leaf is run with --generate-only --offline and one distinct sentinel per argument, and the generated JSON must carry each sentinel in the field the argument is documented for; thorough adds (5) a one-node loopback chain started from a genesis whose module part is exported by the explorer (auction + allow-list entry + bid + instalment), which must produce >=3 blocks and answer every query leaf with the exported objects; non-trivial = distinct (service, RPC, binding), tree nodes and (command, argument) pairs"
 		p.Assume = []string{trustNote, "build tags beyond the defaults (ledger) are not covered", "UpdateParams (authority-gated) and AddAllowedBidder (disabled in default builds, C10) are documented exemptions from 'reachable through a command'"}
 	case "C07":
-		p.Scenarios = []*Scenario{S3(tier, false), S3r(tier), S1a(tier, true), S2a(tier, false), S1d(tier), S2d(tier), S10(tier, false), S10(tier, true)}
+		p.Scenarios = []*Scenario{S3(tier, false), S3r(tier), S1a(tier, true), S2a(tier, false), S1d(tier), S2d(tier), S10(tier, false), S10(tier, true), S10p()}
 		if !quick {
-			p.Scenarios = append([]*Scenario{S3(tier, false), S3(tier, true), S3r(tier), S1d(tier), S2d(tier), S10(tier, false), S10(tier, true)}, moneyScenarios(tier)...)
+			p.Scenarios = append([]*Scenario{S3(tier, false), S3(tier, true), S3r(tier), S10p(), S1d(tier), S2d(tier), S10(tier, false), S10(tier, true)}, moneyScenarios(tier)...)
 		}
 		p.Monitors = func() []Monitor { return []Monitor{NewC07(), NewC07b()} }
 		p.Level = "model_checking"
